@@ -167,6 +167,8 @@ struct Session {
     err: Arc<Mutex<Vec<u8>>>,
     files: raw::FileCache,
     last_pid: Option<i32>,
+    siglog: Arc<Mutex<Vec<Value>>>,
+    epoch: Arc<std::sync::atomic::AtomicU64>,
 }
 
 fn spawn_drain(mut r: os_pipe::PipeReader, sink: Arc<Mutex<Vec<u8>>>) {
@@ -863,6 +865,60 @@ impl Session {
                 let s2 = snap(pid);
                 Ok(json!({"a": s1, "b": s2}))
             }
+            "sigplan" => {
+                // external sender: one helper thread sends the planned signals in order. Before each send it
+                // checks that this kind is not already pending for the target (standard signals coalesce in the
+                // kernel; a coalesced send would be a false "lost signal"), and records what was really sent.
+                let pid = self.proc_pid().ok_or("no pid")?;
+                let plan = c.get("plan").and_then(|v| v.as_array()).ok_or("plan")?.clone();
+                let log = self.siglog.clone();
+                let epoch = self.epoch.clone();
+                let epoch0 = epoch.load(std::sync::atomic::Ordering::SeqCst);
+                std::thread::spawn(move || {
+                    for item in plan {
+                        let hb = item.get("heartbeat").and_then(|v| v.as_bool()).unwrap_or(false);
+                        let sig = item.get("sig").and_then(|v| v.as_i64()).unwrap_or(0) as i32;
+                        let tid = item.get("tid").and_then(|v| v.as_i64()).map(|t| t as i32);
+                        let delay_us = item.get("delay_us").and_then(|v| v.as_u64()).unwrap_or(0);
+                        if delay_us > 0 {
+                            std::thread::sleep(std::time::Duration::from_micros(delay_us));
+                        }
+                        // a heartbeat only exists to end a blocking resume: it is dropped once that resume returned
+                        if hb && epoch.load(std::sync::atomic::Ordering::SeqCst) != epoch0 {
+                            log.lock().unwrap().push(json!({"sig": sig, "tid": tid, "sent": false, "dropped_heartbeat": true}));
+                            continue;
+                        }
+                        let pending = raw::sig_pending(pid, tid, sig);
+                        let mut sent = false;
+                        if pending == Some(false) {
+                            let r = unsafe {
+                                match tid {
+                                    Some(t) => libc::syscall(libc::SYS_tgkill, pid, t, sig) as i32,
+                                    None => libc::kill(pid, sig),
+                                }
+                            };
+                            sent = r == 0;
+                        }
+                        log.lock().unwrap().push(json!({"sig": sig, "tid": tid, "sent": sent, "pending_before": pending}));
+                    }
+                    log.lock().unwrap().push(json!({"done": true}));
+                });
+                Ok(json!(true))
+            }
+            "sigplan_result" => {
+                // wait (bounded) until the sender finished, then return and clear its log
+                let t0 = std::time::Instant::now();
+                loop {
+                    {
+                        let mut l = self.siglog.lock().unwrap();
+                        if l.iter().any(|e| e.get("done").is_some()) || t0.elapsed().as_millis() > 5000 {
+                            let v: Vec<Value> = std::mem::take(&mut *l);
+                            return Ok(Value::Array(v));
+                        }
+                    }
+                    std::thread::sleep(std::time::Duration::from_millis(1));
+                }
+            }
             "probe" => Ok(probe_json()),
             x => Err(format!("unknown command {x}")),
         }
@@ -989,6 +1045,8 @@ fn main() {
         err: Arc::new(Mutex::new(vec![])),
         files: raw::FileCache::default(),
         last_pid: None,
+        siglog: Arc::new(Mutex::new(vec![])),
+        epoch: Arc::new(std::sync::atomic::AtomicU64::new(0)),
     };
 
     let stdin = std::io::stdin();
@@ -1014,6 +1072,9 @@ fn main() {
             break;
         }
         let res = catch_unwind(AssertUnwindSafe(|| s.handle(&c)));
+        if matches!(c.get("cmd").and_then(|v| v.as_str()), Some("cont" | "start" | "stepi" | "step" | "next" | "finish" | "restart")) {
+            s.epoch.fetch_add(1, std::sync::atomic::Ordering::SeqCst);
+        }
         let mut reply = serde_json::Map::new();
         let mut panicked = false;
         match res {
